@@ -1825,6 +1825,10 @@ func boundToCallOf(c *Ctx, f *core.Func, obj types.Object, g *core.Func) bool {
 // an emit of a constant token, or after a call that scans or emits something
 // else (any other call of a lexer method that reaches emit or read).
 func (c *Ctx) lastEmits(g *core.Func, at ast.Node, emit *core.Func) map[string]bool {
+	return c.lastEmitsFrom(g, at, emit, 0)
+}
+
+func (c *Ctx) lastEmitsFrom(g *core.Func, at ast.Node, emit *core.Func, depth int) map[string]bool {
 	info := g.Info()
 	readFn := c.fn("parser.(*lexer).read")
 	cg := c.P.CG()
@@ -1848,6 +1852,25 @@ func (c *Ctx) lastEmits(g *core.Func, at ast.Node, emit *core.Func) map[string]b
 		return nil
 	}
 	in[blocks[0].Index] = set{"?": true}
+	// a helper that is only ever called: what its callers emitted last holds at its entry
+	if depth < 2 && g.Decl != nil {
+		if calls, complete := c.callSitesOf(g); complete && len(calls) > 0 {
+			entry := set{}
+			for _, cs := range calls {
+				le := c.lastEmitsFrom(cs.in, cs.call, emit, depth+1)
+				if len(le) == 0 {
+					entry = nil
+					break
+				}
+				for k := range le {
+					entry[k] = true
+				}
+			}
+			if len(entry) > 0 {
+				in[blocks[0].Index] = entry
+			}
+		}
+	}
 	var result set
 	transfer := func(b int32, nodes []ast.Node, st set, record bool) set {
 		cur := set{}
@@ -1879,6 +1902,12 @@ func (c *Ctx) lastEmits(g *core.Func, at ast.Node, emit *core.Func) map[string]b
 				case fo != nil && c.P.FuncOf(fo) == emit && len(cl.Args) == 1:
 					if _, isConst := info.Types[cl.Args[0]]; isConst && info.Types[cl.Args[0]].Value != nil {
 						cur = set{exprStr(cl.Args[0]): true}
+					} else if cc := enclosingCase(c.P, cl); cc != nil && len(cc.List) > 0 && allConst(info, cc.List) {
+						// emit(tok) under `case ';', '\n':`
+						cur = set{}
+						for _, e := range cc.List {
+							cur[exprStr(e)] = true
+						}
 					} else {
 						cur = set{"?": true}
 					}
@@ -3232,4 +3261,13 @@ func (c *Ctx) falseMeansNotWord(h *core.Func) bool {
 	res := ok && n > 0
 	c.cache[key] = res
 	return res
+}
+
+func allConst(info *types.Info, es []ast.Expr) bool {
+	for _, e := range es {
+		if tv, ok := info.Types[e]; !ok || tv.Value == nil {
+			return false
+		}
+	}
+	return true
 }
